@@ -20,8 +20,8 @@ HARNESSES = {
     "c10": [("w_c10", None)],
     "c13": [("w_c13", None)],
     "c16": [("w_c16", None)],
-    "c08": [("w_c08", None)],
-    "c19": [("w_c19", None)],
+    "c08": [("w_c08", ["check_fill_queue", "check_parallel_add_cms_w1", "check_parallel_add_cms_w2", "check_parallel_add_cms_w3", "check_parallel_add_cms_w4", "check_parallel_add_all", "check_parallel_merging", "check_items_generator"])],
+    "c19": [("w_c08", ["check_c19_callback_raises_w1", "check_c19_callback_raises_w2", "check_c19_dead_worker"])],
     "c01": [("w_c12", ["check_add_value_linear", "check_update_dict_linear", "check_update_list_linear", "check_ngram_linear"])],
     "c05": [("w_c12", ["check_add_value_linear", "check_add_value_log16", "check_add_value_log8"])],
     "c17": [("w_c17", None)],
